@@ -232,6 +232,30 @@ impl ClientTlsSession {
     }
 }
 
+/// Verification hooks: drive a client TLS session in memory (no crypto streams) and read the
+/// 0-RTT decision it takes when the server's transport parameters arrive.
+#[cfg(genmeta_gm_quic_verif)]
+impl ClientTlsSession {
+    pub fn verif_tls_conn(&mut self) -> &mut ClientConnection {
+        &mut self.tls_conn
+    }
+
+    /// What `ArcTlsHandshake::try_process_tls_message` does for a client.
+    pub fn verif_process_tls_message(&mut self, parameters: &ArcParameters) -> Result<(), Error> {
+        if self.remote_agent.is_none() {
+            self.try_process_sh();
+        }
+        if !parameters.lock_guard()?.is_remote_params_received() {
+            self.try_process_ee(parameters)?;
+        }
+        Ok(())
+    }
+
+    pub fn verif_zero_rtt_accepted(&self) -> Option<bool> {
+        self.zero_rtt_accepted
+    }
+}
+
 impl Drop for ClientTlsSession {
     fn drop(&mut self) {
         if let Some(read_waker) = self.read_waker.take() {
